@@ -23,17 +23,8 @@ mod imp {
     use vharness::seq::pool::{Driver, Profile};
     use vharness::util::{self, Args};
 
-    fn set_parity(_a: &Args) {
-        #[cfg(feature = "ledger")]
-        {
-            use vharness::ledger::{set_parity, Parity};
-            match _a.str("parity", "mixed").as_str() {
-                "even" => set_parity(Parity::Even),
-                "odd" => set_parity(Parity::Odd),
-                "packed" => set_parity(Parity::Packed),
-                _ => set_parity(Parity::Mixed),
-            }
-        }
+    fn set_parity(a: &Args) {
+        util::apply_parity(a);
     }
 
     pub fn main() {
